@@ -162,6 +162,7 @@ Proof.
   - eapply remove_augs_stable; eauto.
   - inversion E; subst; auto.
   - inversion E; subst; auto.
+  - destruct (amemb a (anodes g ++ occ g)); inversion E; subst; auto.
 Qed.
 
 Lemma created_stable_good : created_stable_stmt good.
@@ -237,6 +238,7 @@ Proof.
   - eapply remove_augs_stable_a; eauto.
   - inversion E; subst; auto.
   - inversion E; subst; auto.
+  - destruct (amemb a (anodes g ++ occ g)); inversion E; subst; auto.
 Qed.
 
 Lemma created_stable_aug_good : created_stable_aug_stmt good.
@@ -261,10 +263,11 @@ Proof.
   destruct (existsb _ _); [inversion S|].
   destruct (negb (subsetb ts (onodes g) && _)); [inversion S|].
   pose proof (new_f_fresh g (nth (reg g) (heap w) empty_cell)) as Hfresh.
+  pose proof (new_f_fresh2 g (nth (reg g) (heap w) empty_cell)) as Hfresh2.
   remember (new_f good g (nth (reg g) (heap w) empty_cell)) as i eqn:Hi. clear Hi.
   inversion S; subst w'; clear S.
   eexists i, g, _. split; [reflexivity|]. simpl. split; [apply nth_error_upd_eq; auto|]. simpl.
-  split; [exact Hfresh|]. split; [apply adda_fresh; auto|]. split; [reflexivity|].
+  split; [exact Hfresh2|]. split; [apply adda_fresh; auto|]. split; [reflexivity|].
   split; [rewrite lookup_set_key, Nat.eqb_refl; reflexivity|].
   split; [rewrite lookup_set_key, Nat.eqb_refl; reflexivity|].
   unfold cell_of; simpl. rewrite nth_upd_eq by auto. simpl. rewrite lookup_set_key, Nat.eqb_refl. split; reflexivity.
@@ -279,10 +282,11 @@ Proof.
   unfold step in S. rewrite Hg in S. unfold dom_of in S. simpl in S. unfold add_s in S.
   destruct (negb (nodupb ch)); [inversion S|].
   pose proof (new_s_fresh g (nth (reg g) (heap w) empty_cell)) as Hfresh.
+  pose proof (new_s_fresh2 g (nth (reg g) (heap w) empty_cell)) as Hfresh2.
   remember (new_s good g (nth (reg g) (heap w) empty_cell)) as i eqn:Hi. clear Hi.
   inversion S; subst w'; clear S.
   eexists i, g, _. split; [reflexivity|]. simpl. split; [apply nth_error_upd_eq; auto|]. simpl.
-  split; [exact Hfresh|]. split; [apply adda_fresh; auto|].
+  split; [exact Hfresh2|]. split; [apply adda_fresh; auto|].
   split; [rewrite lookup_set_key, Nat.eqb_refl; reflexivity|].
   unfold cell_of; simpl. rewrite nth_upd_eq by auto. simpl. rewrite lookup_set_key, Nat.eqb_refl. reflexivity.
 Qed.
